@@ -30,7 +30,7 @@ EVAL_SRC = ['1 + 2', '[1,\n2]\n3', '1 $ 2', 'a = 1\nb = 2\nc = = 3', '(1', '1 +'
             'x = 1', 'x += 1', 'x', 'push(l, 1)', 'f = v => v + u', 'f(1)', 'map(l, v => v + u)', 'u', 'l', 'x = [l]; x[0]',
             'total = 41\nboost = = 2', 'total + 1', ('map(l, v => v * 2)', 4), 'u = 3',
             'a = 1 +\n2', '- 1', '[7]', '10 % 20', 'keys({2.5: "a"})', 'keys({2.50: "b"})', '{1: 1, 1.0: 2}', '1 / 3', '2 ** 0.5',
-            'round(1 / 0.0000000000000000000000000000000000000001 ** 99999999)', '0 ** 0', 'round(x9, 2)', 'round(float("inf"))', 'round(float("nan"), 2)', 'floor(float("-inf"))', 'int(float("nan"))', '10 ** 1000000000', 'len = 7; len']
+            'round(1 / 0.0000000000000000000000000000000000000001 ** 99999999)', '0 ** 0', '(0 - 8) ** 0.5', '(0 - 2) ** 1.5 + 1', 'round(x9, 2)', 'round(float("inf"))', 'round(float("nan"), 2)', 'floor(float("-inf"))', 'int(float("nan"))', '10 ** 1000000000', 'len = 7; len']
 NAMES_SRC = ['price * qty + fee(region)', 'alpha + beta ? gamma', 'a\n(b,\nc', '"s" # x', '%a b% . c ( d']
 NAMES_MODES = ['full', 'abandon1', 'unstarted']
 NAMES_KINDS = ['fresh', 'P', 'Q', 'none']
